@@ -475,3 +475,156 @@ func VerifH_TwirpFinishOK() {
 	}
 	vrt.Cover("twirpfinish-end")
 }
+
+
+// refJSONString decodes a JSON string literal at b[pos] (reference decoder written from
+// RFC 8259: escapes \" \\ \/ \b \f \n \r \t \uXXXX); returns the decoded bytes (BMP code
+// points below 0x80 only, U+FFFD reported as the byte 0xFD marker) and the position after it.
+func refJSONString(b []byte, pos int) (out []byte, npos int, ok bool) {
+	if pos >= len(b) || b[pos] != '"' {
+		return nil, pos, false
+	}
+	i := pos + 1
+	for i < len(b) {
+		c := b[i]
+		switch {
+		case c == '"':
+			return out, i + 1, true
+		case c < 0x20:
+			return nil, pos, false // raw control characters are not valid JSON
+		case c == '\\':
+			if i+1 >= len(b) {
+				return nil, pos, false
+			}
+			e := b[i+1]
+			switch e {
+			case '"', '\\', '/':
+				out = append(out, e)
+				i += 2
+			case 'n':
+				out = append(out, '\n')
+				i += 2
+			case 'r':
+				out = append(out, '\r')
+				i += 2
+			case 't':
+				out = append(out, '\t')
+				i += 2
+			case 'b':
+				out = append(out, 8)
+				i += 2
+			case 'f':
+				out = append(out, 12)
+				i += 2
+			case 'u':
+				if i+5 >= len(b) {
+					return nil, pos, false
+				}
+				v := 0
+				for k := 2; k <= 5; k++ {
+					d, okh := refHex(b[i+k])
+					if !okh {
+						return nil, pos, false
+					}
+					v = v<<4 | int(d)
+				}
+				if v == 0xfffd {
+					out = append(out, 0xFD)
+				} else if v < 0x80 {
+					out = append(out, byte(v))
+				} else {
+					return nil, pos, false
+				}
+				i += 6
+			default:
+				return nil, pos, false // not a JSON escape
+			}
+		default:
+			out = append(out, c)
+			i++
+		}
+	}
+	return nil, pos, false
+}
+
+// VerifH_TwirpFinishError: a failed Twirp RPC: HTTP status from the status table (500 for
+// unknown codes), Content-Type exactly application/json whatever the request protocol was,
+// and a body that is valid JSON carrying exactly the error's code and message.
+func VerifH_TwirpFinishError() {
+	err := symErr(vrt.Param("depth", 1))
+	vrt.Assume(err != nil)
+	var e error = err
+	for i := 0; i < 3; i++ {
+		switch v := e.(type) {
+		case *wrapErr:
+			e = v.inner
+		case *causeErr:
+			e = v.inner
+		}
+	}
+	vrt.Assume(e != nil)
+	ct := []string{"application/proto", "application/json"}[vrt.Choice("reqct", 2)]
+	rw := &recRW{hdr: http.Header{"Content-Type": []string{ct}}}
+	ts := &twirpStream{tp: twirpProtocol{ct: ct, marshal: protoMarshal}, rw: rw}
+	ts.Finish(err)
+	code := getCode(err)
+	want := twirpStatus[code]
+	if want == 0 {
+		want = 500
+	}
+	vrt.Assert(rw.status == want, "HTTP status follows the Twirp status table (500 for unknown codes)")
+	vrt.Assert(rw.status >= 400, "a failed RPC never yields a success status")
+	cts := rw.hdr["Content-Type"]
+	vrt.Assert(len(cts) == 1 && cts[0] == "application/json", "the error response has exactly one Content-Type: application/json")
+	// body: {"code": <code>, "msg": <message>} as valid JSON
+	b := rw.out
+	pos := 0
+	skip := func() {
+		for pos < len(b) && (b[pos] == ' ' || b[pos] == '\n' || b[pos] == '\t' || b[pos] == '\r') {
+			pos++
+		}
+	}
+	okAll := true
+	expect := func(c byte) {
+		skip()
+		if pos < len(b) && b[pos] == c {
+			pos++
+		} else {
+			okAll = false
+		}
+	}
+	expect('{')
+	skip()
+	k1, p1, ok1 := refJSONString(b, pos)
+	pos = p1
+	expect(':')
+	skip()
+	v1, p2, ok2 := refJSONString(b, pos)
+	pos = p2
+	expect(',')
+	skip()
+	k2, p3, ok3 := refJSONString(b, pos)
+	pos = p3
+	expect(':')
+	skip()
+	v2, p4, ok4 := refJSONString(b, pos)
+	pos = p4
+	expect('}')
+	skip()
+	vrt.Assert(okAll && ok1 && ok2 && ok3 && ok4 && pos == len(b), "the error body is one valid JSON object with two string members")
+	if okAll && ok1 && ok2 && ok3 && ok4 {
+		vrt.Assert(string(k1) == "code" && string(k2) == "msg", "members are code and msg")
+		vrt.Assert(string(v1) == code, "code member carries the error code")
+		msg := err.Error()
+		same := len(v2) == len(msg)
+		for i := 0; same && i < len(msg); i++ {
+			m := msg[i]
+			if m >= 0x80 {
+				m = 0xFD // invalid UTF-8 is replaced by U+FFFD
+			}
+			same = v2[i] == m
+		}
+		vrt.Assert(same, "msg member carries exactly the error message")
+	}
+	vrt.Cover("twirp-error-end")
+}
